@@ -40,7 +40,8 @@ ASSUMPTIONS = [
 ]
 TRUSTED = ["stdlib argparse, json, PyYAML, dataclasses"]
 EXHAUSTIVE = {"quick": False, "thorough": False}
-THOROUGH_ROUNDS = 5   # thorough tier: this many generator passes with derived PRNG states (vcheck)
+THOROUGH_ROUNDS = 8   # thorough tier: this many generator passes with derived PRNG states (vcheck); the per-pass sizes
+                      # in gen() are chosen so that 8 passes (~75 000 cases) stay within the time and memory budget
 SERIAL = False
 
 LEAF_NAMES = ["a", "b", "x", "y", "lr", "seed", "name", "n_it", "w_d", "tag", "k", "depth"]
@@ -251,11 +252,16 @@ def e2e_case(rng, mk, cls_list=None, api=None, force=None, malformed=None, fmt=N
         add_arg = True
     ctor = [{"fmt": fmt or rng.choice(FMTS), "data": {}} for _ in range(n_ctor)]
     cli = None if n_cli is None else [{"fmt": fmt or rng.choice(FMTS), "data": {}} for _ in range(n_cli)]
-    regs, kw_before, kw_after, cmd = [], {}, {}, {}
+    regs, kw_before, kw_after, cmd, kw_before_rl = [], {}, {}, {}, {}
     for ri in range(n_regs):
         cls = cls_list[ri] if cls_list is not None else gen_cls(rng, rng.choice([0, 1, 1, 2, 2]), mk)
         dest = dests[ri]
-        mode = rng.choice(["none", "inst"] if api == "parse" else ["none", "inst", "kw_after", "kw_after", "kw_before", "inst+kw_after"])
+        modes = ["none", "inst"] if api == "parse" else ["none", "inst", "kw_after", "kw_after", "kw_before", "inst+kw_after"]
+        if api == "parser" and rootless:
+            modes.append("kw_before_rl")   # set_defaults(a=5) with root-less keywords before add_arguments
+        if force and any("default" in ls for (i, _p), ls in force.items() if i == ri):
+            modes = [m for m in modes if m not in ("none", "kw_before_rl")]   # a forced default layer must have a carrier
+        mode = rng.choice(modes)
         inst_kw = {} if "inst" in mode else None
         for path, f in leaf_paths(cls):
             layers = force.get((ri, path)) if force and (ri, path) in force else {
@@ -267,6 +273,8 @@ def e2e_case(rng, mk, cls_list=None, api=None, force=None, malformed=None, fmt=N
                     set_path(inst_kw, path, mk(f["ty"], key=(ri, path)))
                 elif sub == "kw_after":
                     set_path(kw_after, full, mk(f["ty"], key=(ri, path)))
+                elif sub == "kw_before_rl":
+                    set_path(kw_before_rl, path, mk(f["ty"], key=(ri, path)))
                 else:
                     set_path(kw_before, full, mk(f["ty"], key=(ri, path)))
             for name, files in (("ctor", ctor), ("cli", cli)):
@@ -286,8 +294,13 @@ def e2e_case(rng, mk, cls_list=None, api=None, force=None, malformed=None, fmt=N
                     elif f["name"] in kw or f["fac"] is None:
                         complete(f["cls"], kw.setdefault(f["name"], {}))
             complete(cls, inst_kw)
+        if mode == "kw_before_rl" and rng.random() < 0.6:
+            # the code only looks at root-less pending keywords when EVERY direct leaf of the class is among them
+            for f in cls:
+                if f["k"] == "leaf" and f["name"] not in kw_before_rl:
+                    kw_before_rl[f["name"]] = mk(f["ty"], key=(ri, (f["name"],)))
         regs.append({"dest": dest, "cls": cls, "inst": inst_kw})
-    case = {"api": api, "nest": nest, "regs": regs,
+    case = {"api": api, "nest": nest, "regs": regs, "kw_before_rl": [kw_before_rl] if kw_before_rl else [],
             "kw_before": [kw_before] if kw_before else [], "kw_after": [kw_after] if kw_after else [],
             "ctor_files": ctor, "ctor_form": rng.choice(["str", "path", "list", "tuple"]) if n_ctor == 1 else rng.choice(["list_str", "list_path", "tuple"]),
             "add_arg": add_arg, "cli_files": cli, "cli_pos": rng.choice(["front", "back", "mid"]), "cmd": cmd}
@@ -339,7 +352,8 @@ def history_case(rng, mk):
 def sources_of(case):
     """every dict source with the way it is keyed: [(name, index, data, rootless)]"""
     rootless = case["nest"] == "WITHOUT_ROOT" and len(case["regs"]) == 1
-    out = [("kw_before", i, d, False) for i, d in enumerate(case["kw_before"])]
+    out = [("kw_before_rl", i, d, True) for i, d in enumerate(case.get("kw_before_rl", []))]
+    out += [("kw_before", i, d, False) for i, d in enumerate(case["kw_before"])]
     out += [("kw_after", i, d, False) for i, d in enumerate(case["kw_after"])]
     out += [("ctor", i, f["data"], rootless) for i, f in enumerate(case["ctor_files"])]
     out += [("cli", i, f["data"], rootless) for i, f in enumerate(case["cli_files"] or [])]
@@ -352,6 +366,17 @@ def inject(rng, case, kind, mk):
         case["add_arg"] = False
         case["ctor_files"] = []
         case["cli_files"] = case["cli_files"] or [{"fmt": "json", "data": {}}]
+        return
+    srcs = [t for t in srcs if t[0] != "kw_before_rl"]
+    if kind == "bad_root":
+        # the value under a destination is not a dict: int / list -> ValueError, str -> taken as a path to read
+        reg = rng.choice(case["regs"])
+        keyed = [t for t in srcs if not t[3]]
+        bad = rng.choice([mk("int"), mk("list"), mk("float"), "nofile.json"])
+        if keyed:
+            rng.choice(keyed)[2][reg["dest"]] = bad
+        elif case["api"] == "parser":
+            case["kw_after"] = case["kw_after"] + [{reg["dest"]: bad}]
         return
     if not srcs:
         return
@@ -454,13 +479,13 @@ def gen(rng, tier):
     _base()
     mk = Mk(rng)
     # (c) dict_union
-    n_u = 300 if tier == "quick" else 4000
+    n_u = 300 if tier == "quick" else 1000
     for _ in range(n_u):
         keys = rng.choice([["a", "b"], ["b", "a", "_type_"], ["k", "B", "a10", "a9", "z"], ["x", "y", "xy"]])
         n = rng.choice([0, 1, 2, 2, 2, 3, 4])
         yield {"op": "layers.dict_union", "case": {"dicts": [gen_union_dict(rng, rng.choice([0, 1, 2, 3]), mk, keys) for _ in range(n)]}}
     # (b) set_default sequences on a real wrapper
-    n_s = 400 if tier == "quick" else 5000
+    n_s = 400 if tier == "quick" else 1500
     for _ in range(n_s):
         cls = gen_cls(rng, rng.choice([0, 1, 2, 2]), mk)
         inst = None
@@ -504,10 +529,10 @@ def gen(rng, tier):
                     yield e2e_case(rng, mk, cls_list=[cls], api=api, force={(0, target): chosen - {"defn"}},
                                    fmt=rng.choice(FMTS))
     # (d) histories: the same file paths rewritten between parses (oracle only)
-    for _ in range(60 if tier == "quick" else 1500):
+    for _ in range(60 if tier == "quick" else 400):
         yield history_case(rng, mk)
     # (a) random scenarios, plus the malformed streams
-    n_e = 1200 if tier == "quick" else 20000
+    n_e = 1200 if tier == "quick" else 6000
     for _ in range(n_e):
         r = rng.random()
         malformed = None
@@ -525,6 +550,8 @@ def gen(rng, tier):
             malformed = "null_nested"
         elif r < 0.33:
             malformed = "cli_disabled"
+        elif r < 0.36:
+            malformed = "bad_root"
         yield e2e_case(rng, mk, malformed=malformed)
 
 
@@ -653,7 +680,7 @@ def impl_e2e(c, fixed=None):
                 return {r["dest"]: simple_parsing.parse(pyclss[0], config_path=config_path, args=argv, default=insts[0],
                                                          dest=r["dest"], nested_mode=nest, add_config_path_arg=c["add_arg"])}
             p = ArgumentParser(nested_mode=nest, config_path=config_path, add_config_path_arg=c["add_arg"])
-            for kw in c["kw_before"]:
+            for kw in c.get("kw_before_rl", []) + c["kw_before"]:
                 p.set_defaults(**json.loads(json.dumps(kw)))
             for r, pc, inst in zip(c["regs"], pyclss, insts):
                 p.add_arguments(pc, dest=r["dest"], default=inst)
@@ -706,7 +733,7 @@ def model_case(case, obs):
         return {"cls": enc_cls(c["cls"]), "inst": None if c["inst"] is None else enc(c["inst"]), "values": [enc(v) for v in c["values"]]}
     return {
         "without_root": c["nest"] == "WITHOUT_ROOT",
-        "kw_before": [enc(d) for d in c["kw_before"]],
+        "kw_before": [enc(d) for d in c.get("kw_before_rl", [])] + [enc(d) for d in c["kw_before"]],
         "regs": [{"dest": r["dest"], "cls": enc_cls(r["cls"]), "inst": None if r["inst"] is None else enc(r["inst"])} for r in c["regs"]],
         "kw_after": [enc(d) for d in c["kw_after"]],
         "ctor_files": [enc(f["data"]) for f in c["ctor_files"]],
@@ -774,6 +801,8 @@ def section(data, rootless, dest):
 def facts(c):
     out = []
     for name, i, data, rootless in sources_of(c):
+        if name == "kw_before_rl":
+            continue   # the code filters these keywords down to the class's field names; the generator puts no others
         for r in c["regs"]:
             sec, present = section(data, rootless, r["dest"])
             if present and not isinstance(sec, dict):
@@ -826,12 +855,18 @@ def expected_leaf(c, ri, path):
         if vals:
             return [vals[-1]], layer
     vals = [v for (n, v) in seq if n in ("kw_after", "kw_before") and v is not None]
+    # root-less keywords given before add_arguments: the property does not say whether they address the fields (the code
+    # uses them only when every direct field of the class is named) -> their values are acceptable, never demanded
+    opt = [v for (n, v) in seq if n == "kw_before_rl" and v is not None]
     if reg["inst"] is not None:
         iv, ok = get_path(reg["inst"], path)
         if ok and iv is not None and not isinstance(iv, dict):
             vals.append(iv)
     if vals:
-        return vals, "default"
+        return vals + opt, "default"
+    if opt:
+        lower, layer = expected_leaf(dict(c, kw_before_rl=[]), ri, path)
+        return opt + (lower or []), "default?" + (layer or "missing")
     if reg["inst"] is not None:
         # a default instance carries a value for every leaf: its attribute (stdlib construction)
         obj = build_inst(reg["cls"], build_cls(reg["cls"], "I"), reg["inst"])
@@ -859,7 +894,7 @@ def erased_value(c, ri, path):
             obj = getattr(obj, q)
         slot = inst_attr = obj
     seq = leaf_sources(c, reg, path)
-    order = {"kw_before": 0, "kw_after": 1, "ctor": 2, "cli": 3}
+    order = {"kw_before_rl": 0, "kw_before": 0, "kw_after": 1, "ctor": 2, "cli": 3}
     for n, v in sorted(seq, key=lambda t: order[t[0]]):
         slot = v
     if slot is not None:
@@ -932,18 +967,22 @@ def oracle(case, obs):
     kinds = {k for k, *_ in fx}
     addarg_on = bool(c["add_arg"]) if c["add_arg"] is not None else bool(c["ctor_files"])
     usage_error = c["cli_files"] is not None and not addarg_on
-    if "unknown" in kinds:
-        if obs["o"] == "ok":
-            u = [f for f in fx if f[0] == "unknown"][0]
-            fails.append({"clause": "unknown-key", "detail": f"key {'.'.join(u[3])} in source {u[1]}[{u[2]}] names no field of its dataclass but the parse succeeded"})
+    unknown = [f for f in fx if f[0] == "unknown" and not (f[1] == "cli" and usage_error)]
+    if unknown:
+        # sources are read before argparse runs, so an unknown key must surface as an exception: an `exit 2` for some
+        # missing required option would mean the key itself was silently dropped
+        if obs["o"] != "raise":
+            u = unknown[0]
+            fails.append({"clause": "unknown-key", "detail": f"key {'.'.join(u[3])} in source {u[1]}[{u[2]}] names no field of its dataclass but the parse ended with {obs['o']} instead of raising"})
         return fails
     free = kinds & {"scalar_nested", "dict_leaf", "bad_root", "type_key"} or usage_error
     missing = []
     for ri, r in enumerate(c["regs"]):
         for path, f in leaf_paths(r["cls"]):
             exp, layer = expected_leaf(c, ri, path)
-            if exp is None:
+            if exp is None or (layer or "").endswith("?missing"):
                 missing.append(path)
+            if exp is None:
                 continue
             if obs["o"] != "ok":
                 continue
@@ -1019,6 +1058,8 @@ def tags(case, obs):
         t.append("default:" + ("inst" if r["inst"] is not None else "noinst"))
         for path, f in leaf_paths(r["cls"]):
             t.append(f"winner:{expected_leaf(c, ri, path)[1]}")
+    if c.get("kw_before_rl"):
+        t.append("default:kw_before_rootless")
     if c["kw_before"]:
         t.append("default:kw_before")
     if c["kw_after"]:
@@ -1049,8 +1090,8 @@ def shrink(case):
         yield mk(cli_files=None)
     if c["cmd"]:
         yield mk(cmd={})
-    for key in ("kw_before", "kw_after"):
-        if c[key]:
+    for key in ("kw_before", "kw_after", "kw_before_rl"):
+        if c.get(key):
             yield mk(**{key: []})
     if len(c["regs"]) > 1:
         for i in range(len(c["regs"])):
@@ -1078,19 +1119,22 @@ def neighbours(case, rng):
 MANIFEST = {
     "text": ("Proof (partial: one named gap). Lean theorems over an executable model of dict_union, "
              "DataclassWrapper.set_default, FieldWrapper.default, ArgumentParser.set_defaults/_add_arguments and the "
-             "parse_known_args ordering: for every class tree, every list of sources and every leaf, the value that ends up in "
-             "the instance is the command-line value if given, else the value of the last source whose section contains the "
-             "leaf, else the default instance's attribute, else the definition default (c06_priority_general); through the "
-             "parser with one registration the sources are exactly the constructor files in order followed by the "
-             "--config_path files in order, re-rooted for the root-less layout (c06_parse_single, c06_parse_priority); a "
-             "source that does not contain a leaf has no influence on it (c06_leafwise); a key naming no field of its "
-             "section at any depth makes set_default fail, with RuntimeError (c06_unknown_key_*); dict_union is right-biased "
-             "at leaves and recursive on dicts. The full statement with 'explicit null = not mentioned' is refuted by a "
-             "witness (a later null erases earlier sources: open finding C06-null-erases) and proved under the named "
-             "exclusion NoNullAt (a tuple config_path raising TypeError was found by this check and repaired in /repo, "
-             "82d0eed; its input stays in the corpus as a regression case). The model is tied to the code by three correspondence ops (dict_union, set_default on a real "
-             "wrapper, end-to-end through parse()/ArgumentParser with real json/yaml files, 1-2 destinations) and the "
-             "property's own statement is evaluated on every real observation."),
+             "parse_known_args ordering. Value: for every class tree, source list and leaf, the result holds the command-line "
+             "value if given, else the value of the last source whose section contains the leaf, else the default "
+             "instance's attribute, else the definition default (c06_priority_general); stated from the whole scenario for "
+             "one registration with the sources spelled out as set_defaults keywords, then constructor files in order, then "
+             "--config_path files in order, re-rooted for the root-less layout (c06_run_layers, c06_parse_priority, "
+             "c06_cli_layer_wins, c06_ctor_layer_wins, slotAt_initInst); a source that does not contain a leaf has no "
+             "influence on it (c06_leafwise). Totality: well-formed sources and a value for every leaf make the pipeline "
+             "return a result (c06_total, c06_total_of_defaults). Unknown keys: a key naming no field of its section at any "
+             "depth makes set_default fail and the whole parse cannot return a result (c06_unknown_key_*, "
+             "c06_parse_unknown_key). dict_union is right-biased at leaves and recursive on dicts. The full statement with "
+             "'explicit null = not mentioned' is refuted by a witness (a later null erases earlier sources: open finding "
+             "C06-null-erases) and proved under the named exclusion NoNullAt (a tuple config_path raising TypeError was found "
+             "by this check and repaired in /repo, 82d0eed; its input stays in the corpus as a regression case). The model is "
+             "tied to the code by three correspondence ops (dict_union, set_default on a real wrapper, end-to-end through "
+             "parse()/ArgumentParser with real json/yaml files, 1-2 destinations), a history op (same paths rewritten between "
+             "parses, oracle only), and the property's own statement is evaluated on every real observation."),
     "note": ("Trusted: Lean kernel + propext/Classical.choice/Quot.sound; argparse, json, PyYAML, dataclasses (stdlib "
              "behaviour assumed); the harness. Modelled not verified: parsing.py:300-343,385-438,460-521, "
              "dataclass_wrapper.py:255-315, field_wrapper.py:711-821, utils.py:841-885. The code raises for any key without a "
